@@ -378,6 +378,22 @@ def workload(ctx, repo):
         for case in edge_year_dumps(rng):
             ctx.case = case
             run_case(ctx, repo, case)
+    # every ordered (source, destination) pair of a grid of offsets
+    j = 0
+    for src in gen.OFFSET_GRID:
+        for dest in gen.OFFSET_GRID:
+            j += 1
+            if not ctx.mine(j):
+                continue
+            mode = R.MODES[j % 4] if j % 3 == 0 else "gregorian"
+            inst = (730000 + j % 400) * 86400 + (0, 1800, 84600)[j % 3]
+            case = {"op": "tz", "mode": mode,
+                    "p": gen.tp_from_instant(rng, mode, inst, offset=src,
+                                             allow_2400=False),
+                    "dest": list(dest)}
+            ctx.case = case
+            ctx.ev("cases.offset-grid")
+            run_case(ctx, repo, case)
     offs = all_offsets() + [(0, -m) for m in range(1, 60)]
     i = 0
     for mode in R.MODES:
